@@ -483,6 +483,46 @@ func cloneNode(n *Node) *Node {
 	return &c
 }
 
+// Rewrite returns a deep copy of the AST in which f has been applied to every
+// node, children first (f may return its argument or a replacement).
+func Rewrite(n *Node, f func(*Node) *Node) *Node {
+	if n == nil {
+		return nil
+	}
+	c := *n
+	c.Kids = make([]*Node, len(n.Kids))
+	for i, k := range n.Kids {
+		c.Kids[i] = Rewrite(k, f)
+	}
+	c.Keys = make([]ObjKey, len(n.Keys))
+	for i, k := range n.Keys {
+		c.Keys[i] = k
+		c.Keys[i].Expr = Rewrite(k.Expr, f)
+	}
+	c.Tail = make([]Step, len(n.Tail))
+	for i, st := range n.Tail {
+		c.Tail[i] = st
+		c.Tail[i].Index = Rewrite(st.Index, f)
+	}
+	c.Coll, c.KeyE, c.ValE, c.Cond = Rewrite(n.Coll, f), Rewrite(n.KeyE, f), Rewrite(n.ValE, f), Rewrite(n.Cond, f)
+	var parts func(ps []TPart) []TPart
+	parts = func(ps []TPart) []TPart {
+		if ps == nil {
+			return nil
+		}
+		out := make([]TPart, len(ps))
+		for i, p := range ps {
+			out[i] = p
+			out[i].Expr = Rewrite(p.Expr, f)
+			out[i].Then = parts(p.Then)
+			out[i].Else = parts(p.Else)
+		}
+		return out
+	}
+	c.Parts = parts(n.Parts)
+	return f(&c)
+}
+
 // Expr generates an expression the generator believes has a type matching w.
 func (g *G) Expr(w Want, depth int) *Node {
 	if Chance(g.R, g.Eps) {
